@@ -9,7 +9,7 @@
    cKDTree(snap).query_ball_point(c, r, p=2.0); the model remembers the snapshot of the points the tree was
    built from, which is what makes staleness expressible.
 
-   [config] describes the five code sites where the pinned source deviates from the property; every flag
+   [config] describes the code sites where the pinned source deviates from the property; every flag
    [true] is the corrected behaviour.  The harness determines the flags from the implementation on every run
    (directed witnesses) and the random-history correspondence validates the resulting model. *)
 From Coq Require Import ZArith List Bool.
@@ -42,7 +42,9 @@ Record config := mkcfg {
   local_public : bool;    (* get_localgrid reads self.points (pinned: self._points, uncentred for AtomGrid) *)
   npint_grid : bool;      (* Grid.__getitem__ treats numpy integers like int (pinned: no) *)
   npint_oned : bool;      (* OneDGrid.__getitem__ idem *)
-  npint_periodic : bool   (* PeriodicGrid.__getitem__ idem *)
+  npint_periodic : bool;  (* PeriodicGrid.__getitem__ idem *)
+  periodic_empty_ok : bool (* PeriodicGrid.__init__ without lattice vectors accepts zero points (pinned: ValueError
+                              from .min() of an empty array); with lattice vectors it always raises *)
 }.
 
 Record state := mkst {
@@ -160,7 +162,7 @@ Definition select (npfix : bool) (n : nat) (ix : index) : sel :=
 Definition in_domain (lo hi : Z) (p : point) : bool := (lo <=? hd 0 p) && (hd 0 p <=? hi).
 
 (* self.__class__(points, weights[, domain | realvecs]) on the selected rows *)
-Definition build (k : cls) (g : state) (l : list nat) : obs :=
+Definition build (pe : bool) (k : cls) (g : state) (l : list nat) : obs :=
   let ps := map (fun i => nth i (public k g) []) l in
   let ws := map (fun i => nth i (s_wts g) 0) l in
   match k with
@@ -174,8 +176,10 @@ Definition build (k : cls) (g : state) (l : list nat) : obs :=
       | _ => OSel COneD ps ws XNone
       end
   | CPeriodic =>
-      if is_nil l then OErr EValue                           (* frac_points.min of an empty array *)
-      else OSel CPeriodic ps ws (match s_extra g with XLattice L => XLattice L | _ => XLattice [] end)
+      let L := match s_extra g with XLattice L => L | _ => [] end in
+      (* frac_points.min of an empty array; without lattice vectors (realvecs.size == 0) only on the pinned source *)
+      if is_nil l && negb (pe && is_nil L) then OErr EValue
+      else OSel CPeriodic ps ws (XLattice L)
   | _ => OErr EType                                          (* constructor signature does not fit *)
   end.
 
@@ -190,8 +194,8 @@ Definition npint_flag (cfg : config) (k : cls) : bool :=
 Definition getitem (cfg : config) (k : cls) (g : state) (ix : index) : obs :=
   match select (npint_flag cfg k) (length (s_wts g)) ix with
   | SErr e => OErr e
-  | SRow i => build k g [i]
-  | SRows l => build k g l
+  | SRow i => build (periodic_empty_ok cfg) k g [i]
+  | SRows l => build (periodic_empty_ok cfg) k g l
   | SBare _ =>
       match k with
       | CGrid => OErr EType        (* Grid.__init__: len() of the 0-d weights *)
@@ -341,5 +345,5 @@ Definition check (cfg : config) (k : cls) (flat : bool) (dim : nat) (pub : list 
                  (c0 : point) (x : extra) (ops : list op) (expected : list obs) : bool :=
   list_eqb obs_eqb (run ball_ref cfg k (init cfg k flat dim pub w c0 x) ops) expected.
 
-Definition pinned : config := mkcfg false false false false false false false.
-Definition fixed : config := mkcfg true true true true true true true.
+Definition pinned : config := mkcfg false false false false false false false false.
+Definition fixed : config := mkcfg true true true true true true true true.
